@@ -40,6 +40,7 @@ Definition tgt_NarrowShift : design := [
      m_items := [
       IInitial SSkip;
       IAlways (EvPos "clk") (SNba (LId "o") (EBin BShr (EBin BAdd (EId "a") (EId "b")) (ENum 1)))] |}].
+(* <C02-boolop-value> *)
 Definition src_OrValue : pyblock :=
   {| b_kind := KClock; b_ins := [("a", 4); ("b", 4)]; b_outs := [("o", 4)]; b_attrs := [("x", 0)];
    b_body := (PSSeq (PSAttr "x" (PBool POr (PGet "a") (PGet "b"))) (PSPrepare "o" (PAttr "x"))) |}.
@@ -49,6 +50,8 @@ Definition tgt_OrValue : design := [
       IInteger "x";
       IInitial (SBlk (LId "x") (ENum 0));
       IAlways (EvPos "clk") (SSeq (SBlk (LId "x") (EBin BLOr (EId "a") (EId "b"))) (SNba (LId "o") (EId "x")))] |}].
+(* </C02-boolop-value> *)
+(* <C02-portname> *)
 Definition src_PortName : pyblock :=
   {| b_kind := KClock; b_ins := [("a", 4); ("b", 4)]; b_outs := [("res", 5)]; b_attrs := [];
    b_body := (PSPrepare "res" (PBin PAdd (PGet "a") (PGet "b"))) |}.
@@ -57,6 +60,8 @@ Definition tgt_PortName : design := [
      m_items := [
       IInitial SSkip;
       IAlways (EvPos "clk") (SNba (LId "result") (EBin BAdd (EId "a") (EId "b")))] |}].
+(* </C02-portname> *)
+(* <C02-cmp-rhs> *)
 Definition src_CmpRhs : pyblock :=
   {| b_kind := KClock; b_ins := [("a", 4); ("b", 1)]; b_outs := [("o", 1)]; b_attrs := [];
    b_body := (PSIf (PCmp PEq (PConst 5) (PBin PBitAnd (PGet "a") (PConst 7))) (PSPrepare "o" (PConst 1)) (PSPrepare "o" (PConst 0))) |}.
@@ -65,6 +70,7 @@ Definition tgt_CmpRhs : design := [
      m_items := [
       IInitial SSkip;
       IAlways (EvPos "clk") (SIf (EBin BAnd (EBin BEq (ENum 5) (EId "a")) (ENum 7)) (SNba (LId "o") (ENum 1)) (SNba (LId "o") (ENum 0)))] |}].
+(* </C02-cmp-rhs> *)
 
 
 (* in-subset blocks of py/props/c02_cases.py (validated: used as non-vacuity examples of the soundness theorems) *)
